@@ -93,6 +93,20 @@ def _driver(ch):
     for r in range(1, len(optional_idx) + 1):
         for sub in itertools.combinations(optional_idx, r):
             shapes.append(["none", list(sub)])
+    # actual VALUES of other kinds (a sequence value is a python list of tensors in eager mode; a list of numbers is a
+    # 1-D tensor literal) and other variadic counts: every actual must arrive untouched at its own position
+    # (seeded C17f expanded a list given as the only variadic actual)
+    has_var = any(p.kind == p.VAR_POSITIONAL for p in params)
+    kinds = ["listobj", "listnum", "emptylist", "tupleobj"]
+    if has_var:
+        for n in (0, 1, 3):
+            shapes.append(["varcount", n, "obj"])
+        for k in kinds:
+            shapes.append(["varcount", 1, k])
+            shapes.append(["varcount", 2, k])
+    for j in range(min(len(pos), 3)):
+        for k in kinds[:2]:
+            shapes.append(["argkind", j, k])
     shape = ch.all("call", shapes)
     return {"domain": dom, "version": ver, "op": name, "shape": shape}
 
@@ -327,6 +341,18 @@ def execute(item):
     kwargs = {}
     if shape[0] == "attr":
         kwargs[shape[1]] = ("attr", shape[1])
+    def _val(kind, tag):
+        class _T:      # stands for a tensor: not a python number / list
+            def __repr__(self):
+                return f"T{tag}"
+        return {"obj": ("var", tag), "listobj": [_T(), _T()], "listnum": [1.0, 2.0], "emptylist": [],
+                "tupleobj": (_T(), _T())}[kind]
+    if shape[0] == "varcount":
+        var_args = [("var", k) for k in range(shape[1])]
+        if shape[1] and shape[2] != "obj":
+            var_args[-1] = _val(shape[2], shape[1])
+    if shape[0] == "argkind":
+        sent_in[shape[1]] = _val(shape[2], shape[1])
     if shape[0] == "none":
         for i in shape[1]:
             sent_in[i] = None
@@ -429,6 +455,10 @@ def execute(item):
                 bad("forwarding", f"attribute {v[1]} arrived under name {k}")
         if args != tuple(sent_in) + tuple(var_args):
             bad("forwarding", f"inputs forwarded as {args}")
+    elif shape[0] in ("varcount", "argkind"):
+        want = list(sent_in) + list(var_args)
+        if len(args) != len(want) or any(a is not w and a != w for a, w in zip(args, want)):
+            bad("forwarding-values", f"actuals {want!r} forwarded as {list(args)!r}")
     elif shape[0] == "none":
         want = list(sent_in) + list(var_args)
         while want and want[-1] is None:
